@@ -431,30 +431,57 @@ impl St {
                 }
             }
             11 => {
-                // par_extend / from_par_iter
-                let extra: Vec<u32> = (0..(stop % 600) as u32).map(|i| 6000 + i * 3 % 900).collect();
+                // par_extend / from_par_iter, with repeated keys carrying different values: as in the
+                // sequential extend / collect, the LAST occurrence in input order wins
+                let n = (stop % 3000) as u32;
+                let modulo = 1 + (tree % 900) as u32;
+                let pairs: Vec<(u32, u64)> = (0..n).map(|i| (6000 + i.wrapping_mul(7) % modulo, 1 + i as u64)).collect();
+                if n > modulo && threads > 1 {
+                    self.labels |= dump::L_X1;
+                }
                 let regc = reg.clone();
-                let items: Vec<(RK, u64)> = extra.iter().map(|id| (RK::new(*id, &regc), *id as u64)).collect();
+                let items: Vec<(RK, u64)> = pairs.iter().map(|(id, v)| (RK::new(*id, &regc), *v)).collect();
                 let map = &mut self.map;
                 p.install(|| map.par_extend(items));
-                for id in &extra {
+                for (id, v) in &pairs {
                     if let Some(e) = self.m_map.iter_mut().find(|e| e.0 == *id) {
-                        e.1 = *id as u64;
+                        e.1 = *v;
                     } else {
-                        self.m_map.push((*id, *id as u64));
+                        self.m_map.push((*id, *v));
                     }
                 }
                 let got: Vec<(u32, u64)> = self.map.iter().map(|(k, v)| (k.id, *v)).collect();
-                if sorted(got) != sorted(self.m_map.clone()) {
-                    bad!("C19", "par_extend", "par_extend result differs from sequential extend");
+                if sorted(got.clone()) != sorted(self.m_map.clone()) {
+                    let (g, w) = (sorted(got), sorted(self.m_map.clone()));
+                    let diff = g.iter().zip(w.iter()).find(|(x, y)| x != y);
+                    bad!("C19", "par_extend", "par_extend of {n} pairs over {modulo} keys differs from sequential extend (last value wins); first difference (got, want) = {:?}", diff);
                 }
                 world::with(|w| w.default_plan = self.plan);
+                // plain Copy elements: from_par_iter, then the by-reference ParallelExtend impls
+                let half = pairs.len() / 2;
+                let mut pm: hb::HashMap<u32, u64, PlanBuildHasher> = p.install(|| pairs[..half].par_iter().copied().collect());
+                let mut seq: std::collections::BTreeMap<u32, u64> = pairs[..half].iter().copied().collect();
+                if sorted(pm.iter().map(|(k, v)| (*k, *v)).collect::<Vec<_>>()) != seq.iter().map(|(k, v)| (*k, *v)).collect::<Vec<_>>() || pm.len() != seq.len() {
+                    bad!("C19", "from_par_iter", "HashMap::from_par_iter of {half} pairs over {modulo} keys differs from the sequential collect (last value wins)");
+                }
+                let second = &pairs[half..];
+                p.install(|| pm.par_extend(second.par_iter().map(|e| (&e.0, &e.1))));
+                seq.extend(second.iter().copied());
+                if sorted(pm.iter().map(|(k, v)| (*k, *v)).collect::<Vec<_>>()) != seq.iter().map(|(k, v)| (*k, *v)).collect::<Vec<_>>() || pm.len() != seq.len() {
+                    bad!("C19", "par_extend", "by-reference par_extend of {} pairs over {modulo} keys differs from the sequential extend (last value wins)", second.len());
+                }
                 let ids: Vec<u32> = self.m_sets[0].iter().copied().collect();
                 let regc = reg.clone();
                 let s2: hb::HashSet<RK, PlanBuildHasher> = p.install(|| ids.par_iter().map(|id| RK::new(*id, &regc)).collect());
                 let got: BTreeSet<u32> = s2.iter().map(|k| k.id).collect();
                 if got != self.m_sets[0] || s2.len() != self.m_sets[0].len() {
                     bad!("C19", "from_par_iter", "from_par_iter result differs from the sequential set");
+                }
+                let mut ps: hb::HashSet<u32, PlanBuildHasher> = p.install(|| pairs[..half].par_iter().map(|e| e.0).collect());
+                p.install(|| ps.par_extend(second.par_iter().map(|e| &e.0)));
+                let want: BTreeSet<u32> = pairs.iter().map(|e| e.0).collect();
+                if ps.iter().copied().collect::<BTreeSet<u32>>() != want || ps.len() != want.len() {
+                    bad!("C19", "par_extend", "by-reference par_extend on a HashSet differs from the sequential extend");
                 }
             }
             _ => {
@@ -478,9 +505,28 @@ impl St {
                     bad!("C19", "par-predicates", "(disjoint, subset, superset, eq, rsubset) = {:?}, sequential/mathematical {:?}", preds, want);
                 }
                 let m1 = &self.map;
-                let m2 = self.map.clone();
-                if !p.install(|| m1.par_eq(&m2)) {
+                let mut m2 = self.map.clone();
+                if !p.install(|| m1.par_eq(&m2)) || !p.install(|| m2.par_eq(m1)) {
                     bad!("C19", "par_eq", "a map is not par_eq to its clone");
+                }
+                // same keys, one value differs; then same length, one key differs: sequential == is the oracle
+                if !self.m_map.is_empty() {
+                    let pick = self.m_map[frac_to(stop & 0xffff, self.m_map.len() - 1)].0;
+                    if let Some((_, v)) = m2.iter_mut().find(|(k, _)| k.id == pick) {
+                        *v = v.wrapping_add(1);
+                    }
+                    let (pe, pe2, se) = (p.install(|| m1.par_eq(&m2)), p.install(|| m2.par_eq(m1)), *m1 == m2);
+                    if pe != se || pe2 != se || se {
+                        bad!("C19", "par_eq", "maps with equal keys and one differing value: par_eq {pe}/{pe2}, == {se}");
+                    }
+                    let regc = reg.clone();
+                    let gone: Vec<RK> = m2.extract_if(|k, _| k.id == pick).map(|e| e.0).collect();
+                    drop(gone);
+                    m2.insert(RK::new(900_000 + pick, &regc), 0);
+                    let (pe, pe2, se) = (p.install(|| m1.par_eq(&m2)), p.install(|| m2.par_eq(m1)), *m1 == m2);
+                    if pe != se || pe2 != se || se {
+                        bad!("C19", "par_eq", "maps of equal length with one differing key: par_eq {pe}/{pe2}, == {se}");
+                    }
                 }
             }
         }
